@@ -11,7 +11,11 @@ use std::sync::atomic::{AtomicBool, Ordering};
 use std::sync::{Arc, Mutex};
 use std::time::Instant;
 
-pub const VERIF_ROOT: &str = "/verif";
+/// root of the verification tree: /verif for the registered commands; a background exploration on a
+/// snapshot (vp run) sets VERIF_ROOT to its own copy so that it is self-contained
+pub fn verif_root() -> String {
+    std::env::var("VERIF_ROOT").unwrap_or_else(|_| "/verif".to_string())
+}
 
 #[derive(Clone, Debug)]
 pub enum Verdict {
@@ -393,7 +397,7 @@ impl Report {
         }
         let mut replay_paths = vec![];
         for (i, f) in self.violations.iter().enumerate() {
-            let dir = std::env::var("VERIF_FOUND_DIR").unwrap_or_else(|_| format!("{VERIF_ROOT}/replays/found"));
+            let dir = std::env::var("VERIF_FOUND_DIR").unwrap_or_else(|_| format!("{}/replays/found", verif_root()));
             let _ = std::fs::create_dir_all(&dir);
             let path = format!("{dir}/{}-{}-{:016x}.json", self.id, self.tier, hash_value(&f.case) ^ i as u64);
             let doc = json!({"property": self.id, "signature": f.signature, "detail": f.detail, "case": f.case});
@@ -436,7 +440,7 @@ impl Report {
             "replays": replay_paths,
         });
         // (the registered commands always write /verif/evidence; the override exists for trying seeded changes)
-        let evdir = std::env::var("VERIF_EVIDENCE_DIR").unwrap_or_else(|_| format!("{VERIF_ROOT}/evidence"));
+        let evdir = std::env::var("VERIF_EVIDENCE_DIR").unwrap_or_else(|_| format!("{}/evidence", verif_root()));
         let _ = std::fs::create_dir_all(&evdir);
         let path = format!("{evdir}/{}.json", self.id);
         std::fs::write(&path, serde_json::to_string_pretty(&ev).unwrap()).expect("write evidence");
